@@ -74,7 +74,8 @@ def generate(seed: int, tier: str, idx: int) -> dict:
             f["value"] = s.pick(["PT", "PT5X", "five", [5, "furlongs"], [5]])
             f["where"] = s.pick(["dt", "period"])
         if k == "subgrid_illegal":
-            f["variant"] = s.pick(["i0_zero", "i1_too_big", "i_reversed", "j0_zero", "j1_too_big", "j_reversed", "i_empty"])
+            f["variant"] = s.pick(["i0_zero", "i1_too_big", "i_reversed", "j0_zero", "j1_too_big", "j_reversed", "i_empty",
+                                   "i1_neg_beyond", "j1_neg_beyond", "i0_neg_beyond"])
         if k == "release_without_position":
             f["variant"] = s.pick(["no_xy", "only_x", "only_lon"])
         faults.append(f)
@@ -239,7 +240,10 @@ def apply_faults(sc):
             jm, im = truth.dims(sc)
             sg = {"i0_zero": [0, im - 1, 1, jm - 1], "i1_too_big": [1, im, 1, jm - 1], "i_reversed": [im - 2, 2, 1, jm - 1],
                   "j0_zero": [1, im - 1, 0, jm - 1], "j1_too_big": [1, im - 1, 1, jm], "j_reversed": [1, im - 1, jm - 2, 2],
-                  "i_empty": [3, 3, 1, jm - 1]}[f.get("variant", "i0_zero")]
+                  "i_empty": [3, 3, 1, jm - 1],
+                  # negative bounds count from the far end; reaching beyond the near end is illegal too
+                  "i1_neg_beyond": [2, -(im + 3), 1, jm - 1], "j1_neg_beyond": [1, im - 1, 2, -(jm + 2)],
+                  "i0_neg_beyond": [-(2 * im - 2), im - 1, 1, jm - 1]}[f.get("variant", "i0_zero")]
             ap.cfg_edits.append(lambda cfg, sg=sg: cfg["grid"].__setitem__("subgrid", sg))
             ap.kinds.append(k)
         elif k == "bad_period":
